@@ -74,11 +74,16 @@ class Register(GlobalVar):
         return f"READ_REG(pkt, {self.get_op_var()}, {str(self.is_new).lower()})"
 
     def il_init_var(self):
-        if self.get_name() == "pc":
-            return "RzILOpPure *pc = U32(pkt->pkt_addr);"
         # Registers which are only written do not need their own RzILOpPure.
         if self.access == RegisterAccessType.W or self.access == RegisterAccessType.PW:
             return self.il_isa_to_assoc_name()
+        elif self.get_name() == "pc":
+            # The program counter is not read from the register file.
+            init = "RzILOpPure *pc = U32(pkt->pkt_addr);"
+            if self.access in [RegisterAccessType.RW, RegisterAccessType.PRW]:
+                # It is written as well. The write needs the operand.
+                init = self.il_isa_to_assoc_name() + "\n" + init
+            return init
         else:
             init = self.il_isa_to_assoc_name() + "\n"
 
